@@ -4,7 +4,7 @@ from collections import defaultdict
 from hypothesis import strategies as st
 
 from pbt import build, gens, oracles as O
-from pbt.common import read_views
+from pbt.common import read_views, build_input
 from pbt.runner import Outcome
 
 ID = "C06"
@@ -43,10 +43,10 @@ def strategy(params, shard, nshards):
 def check(case):
     out = Outcome()
     values, dne = case["values"], case["dne"]
-    seq = build.sequence(case["seq"])
-    ev0, d0 = O.seq_events(seq)
-    notes0, an0 = O.notes(ev0)
-    assert not an0 and not O.overlaps(notes0)
+    built = build_input(out, case["seq"])
+    if built is None:
+        return out
+    seq, ev0, d0, notes0 = built
     by_key = defaultdict(list)
     for n in notes0:
         by_key[(n[0], n[1])].append(n)
